@@ -287,6 +287,10 @@ def main(pid, rep=None, finish=True):
                 rep.sample({"line": c["_line"], "kinds": c["u"], "status": c["status"], "called": c["called"], "seen": c["seen"]})
         if pid == "C08":
             b2_bytes(rep, rnd, loop, 4000 if thorough else 800)
+        if pid == "C19":
+            # "the components the caller asked for" when the caller is the command line: spec/ClientCli.tla, UrlAsGiven
+            from checks import clientcli
+            clientcli.main("C19", rep=rep, finish=False)
         rep.set("rule", "random sample of the kind product (every kind of every component swept), several spellings per kind; distinct = distinct rendered lines")
         rep.assume("kinds -> spellings tables of checks/url.py; raw control characters inside a line (removed by urlparse) are not generated")
         rep.set("exhaustive", False)
